@@ -12,6 +12,7 @@ from .engine import *
 from .interp import Interp, Coro
 from .calls import run_body, eval_clause, views_of, exc_class_of, _attach_trace, short
 from .contracts import Spec, Contract, ObjView, _term
+from . import loops as _loops  # noqa: attaches Spec.sum / Spec.lemma
 
 Z3_TIMEOUT_MS = int(os.environ.get("VERIF_Z3_TIMEOUT_MS", "10000"))
 CVC5_TIMEOUT_S = int(os.environ.get("VERIF_CVC5_TIMEOUT_S", "30"))
